@@ -189,6 +189,7 @@ class Exec:
             p.has_terminated(),
             fut.done(),
             self.task.done() if self.task is not None else None,
+            outcome_signature(p),
         )
         self.samples.append(rec)
         return rec
@@ -257,6 +258,8 @@ class Exec:
             self.delivered.setdefault(serial, ev[1] if len(ev) > 1 else NOVALUE)
             self.n_waits_resumed = max(self.n_waits_resumed, serial)
         arg = ev[1] if len(ev) > 1 else (NOVALUE if kind == 'resume' else None)
+        if kind == 'resume' and isinstance(arg, (dict, list)):
+            arg = programs.dec(arg)
         with self.loop.as_running():
             rec = control(self.proc, kind, arg, who=who)
         rec['phase'] = phase
@@ -377,6 +380,20 @@ class Exec:
             'final': self.proc.state.value if self.proc is not None else None,
             'escapes': [[c['message'][:60], c['exc_type'], c['exc_str']] for c in self.loop.escapes()],
         }
+
+
+def outcome_signature(proc):
+    """Identity of the outcome of a terminated process (None while live): must never change once it exists."""
+    state = proc.state.value
+    if state == 'excepted':
+        exc = proc.exception()
+        return ('excepted', type(exc).__name__, id(exc))
+    if state == 'killed':
+        msg = proc.killed_msg()
+        return ('killed', (msg or {}).get('message') if isinstance(msg, dict) or msg is None else repr(msg))
+    if state == 'finished':
+        return ('finished', repr(proc.result())[:80], proc.is_successful)
+    return None
 
 
 def make_process_class(case):
